@@ -27,6 +27,14 @@ def small_sweep():
         lab = os.path.basename(pair[0]) + "-be"
         cases += G.sweep(g, d, "gcno", label=lab)
         cases += G.sweep(g, d, "gcda", label=lab)
+    # version words that differ from a real one only in the release-status character: must be an error
+    for pair in G.SMALL + G.GCC:
+        g, d = G.fixture(pair)
+        lab = os.path.basename(pair[0])
+        for ch in (ord("e"), ord("p"), ord("A"), 0):
+            for target, c_ in (("gcno", G.case(g[:4] + bytes([ch]) + g[5:], [d])), ("gcda", G.case(g, [d[:4] + bytes([ch]) + d[5:]]))):
+                c_["mut"] = [lab, target, "status", ch]
+                cases.append(c_)
     return cases
 
 
@@ -132,7 +140,7 @@ def run_gcno_part(chk):
                 known_ids[lab_] = G.gcno_idents_scan(g_)
             except Exception:
                 pass
-    dist = {"cases": len(cases), "ok": 0, "err": 0, "prefix": 0, "word": 0, "multi": 0, "max_ms": 0, "gcda_prefix_ok": 0, "model_cases": 0, "model_outoffuel": 0}
+    dist = {"cases": len(cases), "ok": 0, "err": 0, "prefix": 0, "word": 0, "multi": 0, "status": 0, "max_ms": 0, "gcda_prefix_ok": 0, "model_cases": 0, "model_outoffuel": 0}
     full = {}
     forced = []
     for ci, (c, r) in enumerate(zip(cases, impl)):
@@ -149,6 +157,11 @@ def run_gcno_part(chk):
                            "clause": "reading a gcno/gcda byte string ends in a result or an error value (no panic, abort, stack overflow, address-space exhaustion at 1 GiB, or hang)"}, tag="crash")
             continue
         m = c["mut"]
+        if m[2] == "status" and k == "ok":
+            chk.violation({"kind": "oracle", "engine": "gcno", "case": c, "impl": r,
+                           "clause": "a version word whose release-status character is not '*' is not a version grcov reads: error, never a result"}, tag="status")
+        if m[2] == "status":
+            forced.append(ci)
         if m[1] == "gcda" and m[2] == "word" and m[0] in ident_pos and m[3] in ident_pos[m[0]] and m[4] not in known_ids[m[0]]:
             dist["foreign_ident"] = dist.get("foreign_ident", 0) + 1
             forced.append(ci)
